@@ -105,4 +105,19 @@ Section Usable.
   Definition obs_eqb (a b : obs) : bool :=
     oshape_eqb (o_cost a) (o_cost b) && oshape_eqb (o_deriv a) (o_deriv b) && oshape_eqb (o_hess a) (o_hess b) &&
     cons_eqb (o_cons a) (o_cons b).
+  (* what the correspondence of C10 demands of the implementation's observation b against the model's a: the same usable shapes; for the
+     OPTIONAL constraint Jacobians only that a supplied one is usable - an extra Jacobian (the model has none) must have one finite entry
+     per flow variable, a Jacobian no longer supplied is SciPy's business (numerical differences) *)
+  Definition con_agrees (nvar : nat) (a b : option shape * option (option shape)) : bool :=
+    oshape_eqb (fst a) (fst b) &&
+    match snd a, snd b with
+    | Some x, Some y => oshape_eqb x y
+    | None, Some y => oshape_eqb y (Some (Vec nvar))
+    | _, None => true
+    end.
+  Fixpoint cons_agree (nvar : nat) (l m : list (option shape * option (option shape))) : bool :=
+    match l, m with [], [] => true | a :: l', b :: m' => con_agrees nvar a b && cons_agree nvar l' m' | _, _ => false end.
+  Definition obs_agrees (a b : obs) : bool :=
+    oshape_eqb (o_cost a) (o_cost b) && oshape_eqb (o_deriv a) (o_deriv b) && oshape_eqb (o_hess a) (o_hess b) &&
+    cons_agree (match o_deriv a with Some (Vec k) => k | _ => 0%nat end) (o_cons a) (o_cons b).
 End Usable.
